@@ -9,7 +9,7 @@ unset GOSUMDB GOTOOLCHAIN
 W="${1:?worktree}"
 out=$(mktemp)
 ( cd "$W" && go build ./... || echo "build failed"; go test -count=1 -timeout 20m ./... ; cd moreinterp && go test -count=1 ./... ) >"$out" 2>&1
-filter() { grep -E -- "--- FAIL|^FAIL|panic:|build failed|cannot|undefined" | grep -vE "TestRunnerRun/#13(17|18|19|20|21) |--- FAIL: TestRunnerRun \(|^FAIL$|^FAIL\s+mvdan.cc/sh/v3/interp\s"; }
+filter() { grep -aE -- "--- FAIL|^FAIL|panic:|build failed|cannot|undefined" | grep -avE "TestRunnerRun/#13(17|18|19|20|21) |--- FAIL: TestRunnerRun \(|^FAIL$|^FAIL\s+mvdan.cc/sh/v3/interp\s"; }
 filter <"$out" >"$out.new"
 if [ -s "$out.new" ]; then
   # retry the top-level failing tests alone
